@@ -225,7 +225,7 @@ func c20inrng(r *Run, cell, rng string) {
 	}
 }
 
-func c20anchor(r *Run, refs []string, cell string) string {
+func c20anchor(r *Run, refs []string, cell string) (string, string) {
 	out, err := "", error(nil)
 	res := ""
 	func() {
@@ -260,7 +260,7 @@ func c20anchor(r *Run, refs []string, cell string) string {
 	if err == nil && !okc {
 		r.Fail("anchor:accept-non-a1", fmt.Sprintf("mergeCellsParser(%q) = %q, nil", cell, out), ln, op)
 	}
-	return res
+	return res, op
 }
 
 // every accepted spelling of one cell must be redirected to the same anchor
@@ -269,11 +269,11 @@ func c20anchorSpellings(r *Run, refs []string, c, ro int) {
 	rs := strconv.Itoa(ro)
 	first := ""
 	for i, sp := range []string{name + rs, strings.ToLower(name) + rs, "$" + name + "$" + rs, "$" + strings.ToLower(name) + rs, name + "$0" + rs} {
-		res := c20anchor(r, refs, sp)
+		res, op := c20anchor(r, refs, sp)
 		if i == 0 {
 			first = res
 		} else if res != first {
-			r.Fail("anchor:spelling-dependent", fmt.Sprintf("mergeCellsParser with merged cells %q: %q -> %s but %q -> %s", refs, name+rs, first, sp, res), 0, fmt.Sprintf("anchor %s %s", "none", hx(sp)))
+			r.Fail("anchor:spelling-dependent", fmt.Sprintf("mergeCellsParser with merged cells %q: %q -> %s but %q -> %s", refs, name+rs, first, sp, res), 0, op)
 		}
 	}
 }
